@@ -378,5 +378,6 @@ def coverage(agg, tier, roots_):
            "distinct_nontrivial": int(s.get("invalid_configs", 0)), "rule": RULE, "exhaustive": True,
            "roots": len(roots_), "non_vacuity": {k: int(v) for k, v in sorted(s.items())},
            "settings": len(OPTS) + len(CONSTS),
-           "samples": [{"radius_init": 1.0, "radius_final": 1e6}, {"low_ratio": 1.0 - T}, {"nb_points": 0}]}
+           "samples": roots_[:3] + [{"part": "cfg", "cfg": {"radius_init": 1.0, "radius_final": 1e6}, "n": 2,
+                                     "note": "one of the pair configurations enumerated by the 'groups' root"}]}
     return cov, herr
